@@ -160,11 +160,22 @@ CORPUS = _alias_corpus() + _numeq_corpus() + _setexpr_corpus() + [  # hand-writt
 FRAG_VARS = ["x1", "x2", "y9", "力量", "_v"]
 
 
+def frag_stmts(r, depth=0):
+    """1-3 statements: fragment expressions and (nested) if / if-else statements"""
+    out = []
+    for _ in range(r.randint(1, 3)):
+        if depth < 3 and r.random() < 0.35:
+            out.append(("if", frag_tree(r, 2), ("seq", frag_stmts(r, depth + 1)), ("seq", frag_stmts(r, depth + 1)) if r.random() < 0.6 else None))
+        else:
+            out.append(frag_tree(r, 2))
+    return out
+
+
 def frag_program(r):
-    """a fragment expression, or a sequence of 2-4 of them as statements"""
-    if r.random() < 0.5:
+    """a fragment expression, or a list of statements (expressions and conditionals)"""
+    if r.random() < 0.4:
         return frag_tree(r)
-    return ("seq", [frag_tree(r, 1) for _ in range(r.randint(2, 4))])
+    return ("seq", frag_stmts(r))
 
 
 def frag_tree(r, d=0):
@@ -197,7 +208,7 @@ def frag_tree(r, d=0):
 
 def main(tier):
     run = Run("C02", tier, module="DS.Props.C02", props_file="DS/Props/C02.lean",
-              extra_files=["DS/Model/RefEval.lean", "DS/Model/VMRun.lean", "DS/Model/Ops.lean", "DS/Model/Frag.lean", "DS/Proofs/FragLemmas.lean", "DS/Proofs/FragCompile.lean", "DS/Proofs/FragStmts.lean"])
+              extra_files=["DS/Model/RefEval.lean", "DS/Model/VMRun.lean", "DS/Model/Ops.lean", "DS/Model/Frag.lean", "DS/Proofs/FragLemmas.lean", "DS/Proofs/FragCompile.lean", "DS/Proofs/FragStmts.lean", "DS/Proofs/FragIf.lean"])
     if run.prepare():
         run.proofs()
         r = run.rng
